@@ -940,6 +940,10 @@ def gen_tree(rng: random.Random, profile: str) -> Dict[str, Any]:
                 pos = rng.choice([0, len(lines) // 2, len(lines)])
                 lines.insert(pos, rng.choice(["# pyrefact: skip_file", "x_skip = 1  # pyrefact: skip_file"]))
                 files[rel] = "\n".join(lines)
+                if rng.random() < 0.3:
+                    # mixed line endings (part of the file edited on another platform): byte-for-byte means these too
+                    parts_ = files[rel].split("\n")
+                    files[rel] = "".join(pt + ("\r\n" if (j % 3 == 0) else "\n") for j, pt in enumerate(parts_[:-1])) + parts_[-1]
     if rng.random() < 0.1:
         files["vsm_broken.py"] = "def broken(:\n    pass\n"  # file-level invalid input
     if profile in ("base", "stagefault") and rng.random() < 0.1:
